@@ -550,7 +550,7 @@ func (vc *VC) mergeStates(in []*State) *State {
 		}
 	}
 	var ks []string
-	for k := range keys {
+	for _, k := range sortedKeys(keys) {
 		ks = append(ks, k)
 	}
 	sort.Strings(ks)
